@@ -18,7 +18,7 @@ RULE = ("a frame is an injective partial map estimate-id -> (ground-truth id, ne
         "(28 frames; thorough also {a,b,c}x{x,y}: 94 frames at depth 2); ALL histories [prev, f1..fn] with prev in {empty, any frame} "
         "and n <= 3 (quick) / n <= 4 from the empty previous frame (thorough) are run through CLEAR in CENTERDISTANCE and IOU2D mode "
         "with several ground-truth counts; extras: results of another label, unknown-labelled estimates; every history is re-run "
-        "under 6 bijective renamings of estimate and ground-truth ids (two of them to un-padded numeric ids whose concatenations coincide); TrackingMetricsScore._sum_clear over pairs of per-label "
+        "under 7 bijective renamings of estimate and ground-truth ids (two of them to un-padded numeric ids whose concatenations coincide); TrackingMetricsScore._sum_clear over pairs of per-label "
         "histories; a manager layer (tracking task, real matcher) over 3-frame sequences. state = (previous frame, current frame, "
         "running counters class); non-trivial = history containing an id switch, a FP or a carried-over pair")
 ASSUMPTIONS = [
@@ -33,7 +33,9 @@ _POOL = {}
 RENAMINGS = [({"a": "b", "b": "a", "c": "c"}, {"x": "x", "y": "y"}), ({"a": "a", "b": "b", "c": "c"}, {"x": "y", "y": "x"}),
              ({"a": "p", "b": "q", "c": "r"}, {"x": "u", "y": "v"}), ({"a": "b", "b": "c", "c": "a"}, {"x": "y", "y": "x"}),
              # un-padded numeric ids: est "1" + gt "12" and est "11" + gt "2" read the same when written one after the other
-             ({"a": "1", "b": "11", "c": "111"}, {"x": "12", "y": "2"}), ({"a": "11", "b": "1", "c": "2"}, {"x": "2", "y": "12"})]
+             ({"a": "1", "b": "11", "c": "111"}, {"x": "12", "y": "2"}), ({"a": "11", "b": "1", "c": "2"}, {"x": "2", "y": "12"}),
+             # ids that are falsy strings / look like numbers: still ids
+             ({"a": "", "b": "0", "c": "00"}, {"x": "0", "y": ""})]
 CAR, PED = AutowareLabel.CAR, AutowareLabel.PEDESTRIAN
 
 
@@ -99,6 +101,7 @@ def units(tier, seed):
         u.append(dict(kind="rawname", lo=i, hi=min(len(FR2), i + 7)))
     for i in range(len(FR2)):
         u.append(dict(kind="sum", first=i))
+        u.append(dict(kind="two_label", first=i))
     for pat in range(4):
         u.append(dict(kind="mgr", pattern=pat))
     return u
@@ -284,6 +287,14 @@ def run_unit(unit, acc):
             for at in range(1, n):
                 check_case(dict(kind="law", law="new-id", n=n, at=at), acc)
                 check_case(dict(kind="law", law="exchange", n=n, at=at), acc)
+    elif k == "two_label":
+        f1 = FR2[unit["first"]]
+        for f2 in FR2[::2]:
+            for g1 in FR2[::3]:
+                for g2 in FR2[::4]:
+                    for order in (0, 1):
+                        check_case(dict(kind="two_label", car=[[], list(map(list, f1)), list(map(list, f2))], ped=[[], list(map(list, g1)), list(map(list, g2))],
+                                        order=order), acc)
     elif k == "sum":
         f1 = FR2[unit["first"]]
         for f2 in FR2:
@@ -360,6 +371,24 @@ def check_case(case, acc):
                 bad("law:exchange", "exchanging two identities at frame %d of %d: id_switch=%d tp=%s" % (at, n, c.id_switch, c.tp))
         acc.compared()
         acc.state(("law", case["law"], n, case.get("at")), nontrivial=case["law"] != "perfect")
+    elif k == "two_label":
+        # a single CLEAR over two target labels with different thresholds: every result is judged with its own label's threshold, so
+        # the counters are those of the two single-label CLEARs added up (cars: 1.0 m, pedestrians: 0.25 m -> the 0.3 / 0.5 pairs fail)
+        car = [tuple(tuple(r) for r in f) for f in case["car"]]
+        ped = [tuple(tuple(r) for r in f) for f in case["ped"]]
+        fc = [[R(e, g, n) for (e, g, n) in f] for f in car]
+        fp_ = [[R(e, g, n, {"a": "pa", "b": "pb"}, {"x": "px", "y": "py"}, "PEDESTRIAN", "PEDESTRIAN") for (e, g, n) in f] for f in ped]
+        both = [(a + b) if case["order"] == 0 else (b + a) for a, b in zip(fc, fp_)]
+        acc.exec(3)
+        c2 = CLEAR(both, 7, [CAR, PED], MatchingMode.CENTERDISTANCE, [1.0, 0.25])
+        cc = CLEAR(fc, 4, [CAR], MatchingMode.CENTERDISTANCE, [1.0])
+        cp = CLEAR(fp_, 3, [PED], MatchingMode.CENTERDISTANCE, [0.25])
+        acc.compared()
+        got = (c2.tp, c2.fp, c2.id_switch, round(c2.tp_matching_score, 9))
+        want = (cc.tp + cp.tp, cc.fp + cp.fp, cc.id_switch + cp.id_switch, round(cc.tp_matching_score + cp.tp_matching_score, 9))
+        if got != want:
+            bad("two-label:not-additive", "one CLEAR over [CAR, PEDESTRIAN] with thresholds [1.0, 0.25] reports (tp, fp, id_switch, score) = %s, the two single-label CLEARs add up to %s" % (got, want))
+        acc.state(("two_label", car[1], car[2], ped[1], ped[2], case["order"]), nontrivial=cc.id_switch + cp.id_switch > 0 or cp.fp > 0)
     elif k == "sum":
         car = [tuple(tuple(r) for r in f) for f in case["car"]]
         ped = [tuple(tuple(r) for r in f) for f in case["ped"]]
